@@ -426,9 +426,9 @@ def parseExtraDecls (fuel : Nat) (allowMultiple isQubit hasInit isFinal : Bool) 
       if !isQubit then reportError "only 'qubit' may be multi-declared"
       if hasInit then reportError "Cannot initialise multiple qubit declarations"
       let t ← expect .Identifier "Expected variable name after ','"
-      -- cloneAnnotations / cloneType copy everything except that the clone's isTracked stays false
+      -- cloneAnnotations / cloneType; the clone carries the first declarator's isTracked
       parseExtraDecls fuel allowMultiple isQubit hasInit isFinal anns ty
-        (acc ++ [Stmt.varDecl (tstr t) ty none anns isFinal false (tpos t)])
+        (acc ++ [Stmt.varDecl (tstr t) ty none anns isFinal (annsTracked anns) (tpos t)])
     else pure acc
 
 /-- `parseVariableDeclaration(isFinal, allowMultiple)`; returns the declaration and the staged
